@@ -44,6 +44,10 @@ class Model:
 
 
 class Layer:
+  class Precision(enum.Enum):          # an enum nested in a class
+    HIGH = 'matmul-highest'
+    LOW = 'matmul-low'
+
   def __init__(self, item=None, units=4, act=None):
     self.rec = targets.Rec('Layer', [('item', item), ('units', units), ('act', act)], (), {})
 
@@ -65,7 +69,7 @@ def leaf(r, exotic=True):
   if not exotic or x < 0.45:
     return r.choice([0, 1, -7, 2.5, -0.0, 'text', "q'uote", '', None, True, False, 10 ** 25])
   if x < 0.55:
-    return r.choice([Hue.WARM, Hue.COLD, Prio.LOW, Prio.HIGH, Sig.ONE])
+    return r.choice([Hue.WARM, Hue.COLD, Prio.LOW, Prio.HIGH, Sig.ONE, Layer.Precision.HIGH, Layer.Precision.LOW])
   if x < 0.63:
     return r.choice([Layer, Model, relu, Hue, dict, list])       # types / functions as leaves
   if x < 0.7:
@@ -92,6 +96,11 @@ class Gen:
     r = self.r
     if self.pool and r.random() < 0.2:
       return r.choice(self.pool)
+    if self.exotic and r.random() < 0.06:
+      # a mutable leaf that no traversal enters: shared by identity like any other object
+      v = r.choice([{1, 2}, {'a'}, set()])
+      self.pool.append(v)
+      return v
     if depth <= 0 or r.random() < 0.3:
       return leaf(r, self.exotic)
     x = r.random()
